@@ -116,8 +116,66 @@ def run_fd(c):
         os.rmdir(d)
 
 
+def run_ospipe(c):
+    """a REAL pipe whose reading end goes away after `read` bytes: the query writes `n` lines through CSVWriter over the usual
+    buffered text stream of the writing end, in a child process (CSVWriter.finish may close sys.stdout there, observation O6)"""
+    import json
+    import signal
+    rfd, wfd = os.pipe()
+    res_r, res_w = os.pipe()
+    pid = os.fork()
+    if pid == 0:
+        rc = 0
+        try:
+            os.close(rfd)
+            os.close(res_r)
+            signal.signal(signal.SIGPIPE, signal.SIG_IGN)
+            sys.stdout = open(os.devnull, 'w')
+            stream = open(wfd, 'w', encoding='utf-8', newline='')
+            A = [[c['cell'] + str(i), 'v'] for i in range(c['n'])]
+            it = EN.RecIterator(A, None, 'a')
+            wr = C.CSVWriter(stream, False, None, ',', 'simple')
+            err = None
+            try:
+                rbql.query(c['q'], it, wr, [], None)
+            except BaseException as e:
+                err = [type(e).__name__, str(e)[:160]]
+            os.write(res_w, json.dumps({'error': err, 'pulls': it.pulls, 'broken': bool(wr.broken_pipe)}).encode())
+        except BaseException as e:
+            try:
+                os.write(res_w, json.dumps({'error': ['CHILD', repr(e)[:160]], 'pulls': -1, 'broken': None}).encode())
+            except BaseException:
+                pass
+            rc = 3
+        finally:
+            os._exit(rc)
+    os.close(wfd)
+    os.close(res_w)
+    got = b''
+    while len(got) < c['read']:
+        chunk = os.read(rfd, min(65536, c['read'] - len(got)))
+        if not chunk:
+            break
+        got += chunk
+    os.close(rfd)            # the consumer goes away
+    out = b''
+    while True:
+        chunk = os.read(res_r, 65536)
+        if not chunk:
+            break
+        out += chunk
+    os.close(res_r)
+    _pid, status = os.waitpid(pid, 0)
+    res = json.loads(out.decode()) if out else {'error': ['CHILD', 'no result'], 'pulls': -1, 'broken': None}
+    res['received'] = got.decode('utf-8', 'replace')
+    res['status'] = status
+    return res
+
+
 def run_case(c):
     m = c['mode']
+    if m == 'ospipe':
+        return run_ospipe(c)
     if m == 'pipe':
         return run_pipe(c)
     if m == 'bytes':
